@@ -168,7 +168,18 @@ def equal_encoding(a, b):
   # Note for simple types, encode_object is trivial, and will result in a non-type-specific
   # comparison (e.g. 1 and 1.0 will compare equal, as would "a" and u"a"). This is to capture
   # equivalence of values in their JSON representations.
-  return encode_object(a) == encode_object(b)
+  return _equal_encoded(encode_object(a), encode_object(b))
+
+def _equal_encoded(a, b):
+  # Compares two encoded values like ==, except that NaNs compare as equal also when they are
+  # inside lists or dicts (otherwise a cell such as [NaN] counts as changed on every recalculation).
+  if isinstance(a, float) and isinstance(b, float):
+    return a == b or (isnan(a) and isnan(b))
+  if isinstance(a, list) and isinstance(b, list):
+    return len(a) == len(b) and all(_equal_encoded(x, y) for x, y in zip(a, b))
+  if isinstance(a, dict) and isinstance(b, dict):
+    return a.keys() == b.keys() and all(_equal_encoded(val, b[key]) for key, val in a.items())
+  return a == b
 
 def encode_object(value):
   """
